@@ -27,6 +27,12 @@ def escChars : List Char → List Char
 
 def esc (s : String) : String := String.ofList (escChars s.toList)
 
+/-- a string between double quotes: `"` and `\` escaped, every char outside printable ASCII as `\u{HEX}` (the comparison side prints the same way) -/
+def jsonStr (s : String) : String :=
+  "\"" ++ String.ofList (s.toList.flatMap fun c =>
+    if c = '"' then ['\\', '"'] else if c = '\\' then ['\\', '\\']
+    else if 32 ≤ c.toNat ∧ c.toNat ≤ 126 then [c] else ['\\', 'u', '{'] ++ toHex c.toNat ++ ['}']) ++ "\""
+
 def hexVal (c : Char) : Option Nat :=
   if '0' ≤ c ∧ c ≤ '9' then some (c.toNat - 48)
   else if 'a' ≤ c ∧ c ≤ 'f' then some (c.toNat - 87)
